@@ -28,7 +28,7 @@ RULE = ('cases = (pass-through function, table, arguments, target kind); seeded 
         'Non-trivial: the table has >= 2 data rows. Distinct = SHA-1 of the case.')
 ASSUMPTIONS = ['tee targets: MemorySource and plain file paths', 'a tee is compared with to* only after it was iterated to the end']
 FNS = ['teecsv', 'teetsv', 'teepickle', 'teetext', 'teehtml', 'progress', 'log_progress', 'clock', 'cache', 'wrap']
-REQUIRED = ['table-without-any-row', 'header-without-fields', 'explicit-csv-dialect'] + ['fn:' + f for f in FNS] + ['tee-bytes-compared', 'ragged-table', 'header-only-table', 'write_header=False', 'file-target', 'memory-target',
+REQUIRED = ['progress-under-a-clock-that-does-not-advance', 'field-names-that-are-not-strings', 'table-without-any-row', 'header-without-fields', 'explicit-csv-dialect'] + ['fn:' + f for f in FNS] + ['tee-bytes-compared', 'ragged-table', 'header-only-table', 'write_header=False', 'file-target', 'memory-target',
                                          'cache-limited', 'non-utf8-encoding', 'cache-interleaved-iterators']
 TEXT = ['', 'a', 'b c', 'x,y', 'q"q', "it's", 'é', '€', 'l1\nl2', 'cr\rlf', 'tab\there', '<b>&amp;</b>', ' pad ', '1', '2.5', 'None']
 MIXED = TEXT + [None, 0, 1, -3, 2.5, True, gen.D(2020, 1, 1), (1, 2), b'by']
@@ -44,6 +44,8 @@ def cases(ctx):
         t = gen.table(rng, nrows=n, nfields=nf, pool=pool, ragged=0.35 if rng.random() < 0.4 else 0.0)
         if rng.random() < 0.3:
             t[0] = [rng.choice(['h', 'héader', 'a b', 'x<y']) + str(j) for j in range(nf)]
+        if fn != 'teetext' and rng.random() < 0.08:
+            t[0] = [rng.choice([2019 + j, 2.5 + j, None, (j,)]) for j in range(nf)]     # field names that are not strings
         if fn != 'teetext' and rng.random() < 0.04:
             t = []           # a table that yields nothing at all, not even a header: nothing comes out (and the tee target still equals
             #                  what to* writes for it)
@@ -88,6 +90,7 @@ def cases(ctx):
         elif fn in ('progress', 'log_progress'):
             c['batchsize'] = rng.choice([1, 2, max(1, n), n + 1, 1000])
             c['prefix'] = rng.choice(['', 'p: '])
+            c['clock'] = rng.choice(['real', 'real', 'frozen', 'coarse'])     # a clock too coarse to time a batch reads the same twice
         elif fn == 'cache':
             c['n'] = rng.choice([None, 1, max(1, n - 1), max(1, n), n + 1, n + 2])
         yield c
@@ -107,6 +110,21 @@ def _enc_ok(v, enc):
         return False
 
 
+def _judge_progress(case, ctx, fn, table, sink, same_rows, out):
+    if fn == 'progress':
+        v = petl.progress(table, case['batchsize'], prefix=case['prefix'], out=sink)
+    else:
+        lg = logging.getLogger('petlmon.c16')
+        lg.propagate = False
+        lg.handlers = [logging.StreamHandler(sink)]
+        lg.setLevel(logging.INFO)
+        v = petl.log_progress(table, case['batchsize'], prefix=case['prefix'], logger=lg)
+    for p in (1, 2):
+        same_rows(util.attempt_rows(lambda: v), 'pass%d' % p)
+    ctx.seen('progress-messages', len(sink.getvalue().splitlines()))
+    return out
+
+
 def judge(case, ctx):
     fn = case['fn']
     ctx.op('fn:' + fn)
@@ -123,6 +141,8 @@ def judge(case, ctx):
         ctx.mark_nontrivial()
     if n == 0:
         ctx.seen('header-only-table')
+    if table and any(not isinstance(h, str) for h in table[0]):
+        ctx.seen('field-names-that-are-not-strings')
     if any(len(r) != len(table[0]) for r in table[1:]):
         ctx.seen('ragged-table')
     out = []
@@ -146,18 +166,28 @@ def judge(case, ctx):
         return out
     if fn in ('progress', 'log_progress'):
         sink = io.StringIO()
-        if fn == 'progress':
-            v = petl.progress(table, case['batchsize'], prefix=case['prefix'], out=sink)
-        else:
-            lg = logging.getLogger('petlmon.c16')
-            lg.propagate = False
-            lg.handlers = [logging.StreamHandler(sink)]
-            lg.setLevel(logging.INFO)
-            v = petl.log_progress(table, case['batchsize'], prefix=case['prefix'], logger=lg)
-        for p in (1, 2):
-            same_rows(util.attempt_rows(lambda: v), 'pass%d' % p)
-        ctx.seen('progress-messages', len(sink.getvalue().splitlines()))
-        return out
+        if case.get('clock', 'real') != 'real':
+            import petl.util.timing as _timing
+            import time as _time
+
+            class _Clock(object):
+                # stands in for the `time` module inside petl.util.timing for this case only
+                calls = 0
+
+                def time(self):
+                    self.calls += 1
+                    return 1000.0 if case['clock'] == 'frozen' else 1000.0 + self.calls // 3
+
+                def __getattr__(self, name):
+                    return getattr(_time, name)
+            real = _timing.time
+            _timing.time = _Clock()
+            ctx.seen('progress-under-a-clock-that-does-not-advance')
+            try:
+                return _judge_progress(case, ctx, fn, table, sink, same_rows, out)
+            finally:
+                _timing.time = real
+        return _judge_progress(case, ctx, fn, table, sink, same_rows, out)
     if fn == 'cache':
         lim = case['n']
         if lim is not None and lim < len(rows):
